@@ -348,7 +348,7 @@ func (w *run) checkDeadlineSemantics(st *rpcState) {
 	}
 	// handler contexts of finished RPCs are cancelled (fault-free runs: the
 	// RST_STREAM / deadline reaches the server)
-	if !w.faulty {
+	if !w.faulty && !w.unsettled {
 		for att := 0; att < st.invocations; att++ {
 			if st.waitingCtx[att] && st.srvReturned[att] == nil {
 				e.Violate("server_ctx_not_cancelled", "rpc %d attempt %d: client finished with %v but the handler's context is still not done at quiescence", id, att, st.clientStatus.Code())
